@@ -63,6 +63,12 @@ typedef struct vp_format {
     uint32_t    nlstructs;
     const vp_lstruct_t* lstructs;
     uint8_t*  (*payload_ptr)(void* pdu);  /* payload accessor or NULL          */
+    /* direct-call sequence: for every accessor pair, in ONE function and with direct calls (so that the optimiser sees
+     * repeated identical calls): out = get; set(vals[i]); out = get; header := alt; out = get.  Returns number of outputs. */
+    uint32_t  (*seq)(void* pdu, const uint8_t* alt, const uint64_t* vals, uint64_t* out);
+    uint32_t    nseq_steps;          /* number of (get,set,get,replace,get) steps */
+    const uint16_t* seq_field;       /* field index of every step */
+    const uint8_t*  seq_path;        /* 0 generic, 1 dedicated, 2 legacy */
     const char* gget_name; const char* gset_name; const char* init_name;
 } vp_format_t;
 
